@@ -552,6 +552,21 @@ def check(facts, rep, tier, cfg):
     check_r5(facts, rep, crate, inter)
     check_r6(facts, rep, crate, inter)
     check_r7(facts, rep, crate, takes)
+    # ---- R8 one Push frame = one unit of the receive window
+    rep.rule("C03.R8", "one Push frame occupies exactly one entry of the flow's inbound queue (reaction-table cells Push/*): the reader counts "
+                       "queue entries as frames, so a frame delivered as several entries is acknowledged several times (credit beyond the window) "
+                       "and can overrun the queue although the peer spent one credit")
+    import rules_c10
+    sub8 = type(rep)(rep.prop, rep.tier, rep.config)
+    rules_c10.check(facts, sub8, tier, cfg)
+    rep.paths += sub8.paths
+    for i8 in sub8.instances:
+        if i8["key"].startswith("cell/Push/"):
+            rep.ok("C03.R8", i8["key"], i8["where"], i8["detail"])
+    for v8 in sub8.violations:
+        k8 = v8["key"].split("/", 1)[1]
+        if "Push" in k8:
+            rep.bad("C03.R8", k8, v8["where"], v8["msg"])
     rep.rule("C03.S7", "who-may: the functions that touch the critical resources behind this property are those of the reference tree (flow table, closed flag, per-stream / datagram / outbound queues, last-pong timestamp, client id maps, shared TLS identity)")
     import whomay
     whomay.check(facts, rep, "C03.S7", "C03")
